@@ -1,4 +1,4 @@
-CONSTANTS N = 4 WS = {1,3} Limits = {0, 6} LimitFactor = 1
+CONSTANTS N = 4 WS = {1,3} Limits = {6} LimitFactor = 1
 SPECIFICATION BSpec
 INVARIANTS Correct BestIsAPath
 CHECK_DEADLOCK FALSE
